@@ -949,6 +949,7 @@ class Logout:
         self.ctx, self.op = ctx, op
         self.sess = op.server.get_endpoint("session")
         self.cases = []
+        self.vcases = []
 
     def login(self):
         op = self.op
@@ -993,6 +994,14 @@ class Logout:
             rec["out"] = type(e).__name__
         ctx.case_seen(rec, True)
         ctx.count("logout:" + rec["out"])
+        # the matcher's decision at this endpoint, for the model (registered entries exactly as stored)
+        if not other_client and rec["out"] in ("redirect", "URIError", "RedirectURIError", "ValueError"):
+            stored = mk(r["base"])
+            regs_c = coq_list([("(RStr %s)" % coq_str(e)) if isinstance(e, str) else
+                               "(RPair %s %s)" % (coq_str(e[0]), "None" if e[1] is None else "(Some %s)" % coq_qd(e[1]))
+                               for e in stored], "reg")
+            obs = "(Ok tt)" if rec["out"] == "redirect" else EXC[rec["out"]]
+            self.vcases.append(("(%s, false, true, %s, %s)" % (regs_c, coq_str(uri), obs), rec))
         regs = [R("https", "client.example.com", "/logout_cb", qd=r["qd"])]
         allowed, reasons = oracle_match(uri, regs, False)
         if other_client:
@@ -1037,7 +1046,9 @@ class Logout:
             label, uri = mutant_multi(rng, rr) if rng.random() < 0.5 else rng.choice(mutants_single(rr))
             self.case(cfgi, label, uri, rng.choice([None, hostile(rng)]), rng)
         return [{"imports": ["Lib.Base", "Lib.PyStr", "Lib.Urlenc", "Lib.Html", "Model.Delivery"],
-                 "type": "pystr * option pystr * pystr", "chk": "chk_logout_target", "cases": self.cases, "label": "logout"}]
+                 "type": "pystr * option pystr * pystr", "chk": "chk_logout_target", "cases": self.cases, "label": "logout"},
+                {"imports": ["Lib.Base", "Lib.PyStr", "Model.Uri"], "type": "vcase", "chk": "chk_verify", "cases": self.vcases,
+                 "label": "logoutverify", "diag": "diag_verify"}]
 
 
 # ------------------------------------------------------------------ html.escape differential
